@@ -138,17 +138,17 @@ func c20Block(rng *rand.Rand, size int, idx int) string {
 }
 
 type c20Witness struct {
-	Cfg       c20Cfg   `json:"config"`
-	Limit     int      `json:"limit"`
-	Stream    string   `json:"stream_shape"`
-	Seg       string   `json:"chunking"`
-	Tokens    []int    `json:"token_sizes"`
-	Got       []string `json:"got_events"`
-	GotEnd    string   `json:"got_end"`
-	Want      []string `json:"want_events"`
-	Pulled    int      `json:"bytes_pulled"`
-	LastEnd   int      `json:"end_of_last_completed_token"`
-	Endless   bool     `json:"endless,omitempty"`
+	Cfg     c20Cfg   `json:"config"`
+	Limit   int      `json:"limit"`
+	Stream  string   `json:"stream_shape"`
+	Seg     string   `json:"chunking"`
+	Tokens  []int    `json:"token_sizes"`
+	Got     []string `json:"got_events"`
+	GotEnd  string   `json:"got_end"`
+	Want    []string `json:"want_events"`
+	Pulled  int      `json:"bytes_pulled"`
+	LastEnd int      `json:"end_of_last_completed_token"`
+	Endless bool     `json:"endless,omitempty"`
 }
 
 func shapeOf(s string) string {
